@@ -53,6 +53,16 @@ func (e *Enc) NoteUnix(v int64) {
 	e.addOracle("tu " + itoa64(v) + " " + tt)
 }
 
+func upperASCII(s string) string {
+	b := []byte(s)
+	for i, c := range b {
+		if c >= 'a' && c <= 'z' {
+			b[i] = c - 32
+		}
+	}
+	return string(b)
+}
+
 func itoa64(v int64) string {
 	if v < 0 {
 		return "-" + itoa(int(-v))
@@ -178,6 +188,9 @@ func genSqlr(r *Rng) *Enc {
 		for _, n := range names {
 			if r.Bool() {
 				mapVals[n] = Pick(r, []any{0, "dflt", -1.5, false, int64(7)})
+			} else if r.Chance(40) {
+				// a key that equals the column name only up to letter case is NOT that column's entry
+				mapVals[upperASCII(n)] = Pick(r, []any{1, "other", int64(9)})
 			}
 		}
 		o.NullHandler = mapVals
@@ -262,7 +275,7 @@ func genSqlr(r *Rng) *Enc {
 	e.Strs(parseDates)
 
 	// ---- run ----
-	st := &dbState{failAt: -1, rs: &resultSet{names: names, types: types, rows: rows, errAt: errAt}, queryErr: queryErr}
+	st := &dbState{failAt: -1, rs: &resultSet{names: names, types: types, rows: rows, errAt: errAt, errKind: r.Intn(5)}, queryErr: queryErr}
 	db := openFake(st)
 	defer db.Close()
 	var res *dataframe.DataFrame
@@ -301,6 +314,18 @@ func genSqlr(r *Rng) *Enc {
 	e.Tok("R", status)
 	if status == "ok" {
 		e.Frame(res)
+		// the imported frame is an ordinary frame: a row appended to it lands in its own row and nowhere else
+		if r.Chance(40) {
+			row := map[string]any{}
+			for _, k := range res.ColumnNames() {
+				row[k] = Pick(r, []any{"new", 77, nil, 2.5})
+			}
+			pst, _ := guard(func() error { return res.AppendRow(res, row) })
+			e.Tok("POST")
+			e.Row(row)
+			e.Tok(pst)
+			e.Frame(res)
+		}
 	} else if res != nil {
 		e.Tok("PARTIAL")
 	}
